@@ -36,6 +36,10 @@ func runC05(c *an.Ctx) {
 	r05l(c)
 	r05m(c)
 	c.As(map[string]string{"R13f": "R05n"}, func() { r13f(c) })
+	// round 9
+	r05o(c)
+	r05p(c)
+	r05q(c)
 }
 
 // R05a: verdict finality in constraint.Attributes.Satisfy.
